@@ -55,7 +55,8 @@ fn iso_strategy() -> impl Strategy<Value = Iso> {
     )
         .prop_map(|((na, nb, a_amountless, b_amountless, splits), (a_ok, b_ok, a_parts, b_funded, a_funded, b_parts), (k, _), shuffle, seed, mpp, a_rejecting)| {
             let cfg = Cfg { mpp_timeout_s: mpp, ..Cfg::default() };
-            let pa = PaymentSpec { preimage: 0x11, invoice_amount: if a_amountless { None } else { Some(1_000_000) }, tlv_amount: 777_000, hints: Hints::None, explicit_payee: false, recipient_ok: a_ok, drain_parts: a_parts };
+            let pa = PaymentSpec { preimage: if seed % 2 == 0 { 0x04 } else { 0x11 }, // sha256(32 x 0x04) and sha256(32 x 0x22) share their first byte
+                invoice_amount: if a_amountless { None } else { Some(1_000_000) }, tlv_amount: 777_000, hints: Hints::None, explicit_payee: false, recipient_ok: a_ok, drain_parts: a_parts };
             let pb = PaymentSpec { preimage: 0x22, invoice_amount: if b_amountless { None } else { Some(2_000_000) }, tlv_amount: 555_000, hints: Hints::Other, explicit_payee: true, recipient_ok: b_ok, drain_parts: b_parts };
             let mut htlcs = well_formed_set(&cfg, 0, &pa, na, a_funded, 1000, &splits[..3]);
             // A (only A) may also receive late HTLCs that are rejected for two reasons at once
@@ -174,7 +175,7 @@ pub fn run(tier: Tier, seed: u64) -> i32 {
         s.assume(a);
     }
     s.regress::<Iso, _>("world-differential", case);
-    s.search("world-differential", "world-differential", tier.pick(800, 8000), iso_strategy, case);
+    s.search("world-differential", "world-differential", tier.pick(800, 20000), iso_strategy, case);
     s.finish()
 }
 
